@@ -22,6 +22,7 @@ func TestVerifC08Wire(t *testing.T) {
 		c08Part("lattice-headers", "structured lattice over long headers (type x version x connection ID lengths x token length x packet number length/value x payload length), short headers, version negotiation packets, plus raw long headers built by a reference encoder (any first byte/version/connection ID length byte/token length/Length); every prefix and single-byte substitution of every header encoding", c08HeaderLatticePart),
 		c08Part("tparams-values", "structured lattice over TransportParameters: every single field alternative and every pair of alternatives of two fields, both perspectives, Marshal -> Unmarshal; prefixes and single-byte substitutions of the encodings; session-ticket form likewise", c08TPValuesPart),
 		c08Part("tparams-table", "exhaustive: every sequence of <= 3 entries (with repetition = duplicates) from a table of raw parameters incl. perspective-forbidden and out-of-range ones, alone and followed by the mandatory parameters, for both perspectives", c08TPTablePart),
+		c08Part("tparams-narrowing", "exhaustive over the narrowing lattice: every numeric transport parameter as raw bytes with the values next to its range rule's edge, every v + k*2^w (w in {8,16,32}) of them and the values that turn negative in a signed w-bit type, in minimal and 8-byte varint width; connection ID parameters of length n + 2^w; alone / before / after the mandatory parameters, both perspectives, and as session ticket parameters", c08TPNarrowPart),
 	}, func(msg string) { t.Fatal(msg) })
 }
 
@@ -398,7 +399,7 @@ func c08HeaderLatticePart(thorough bool) c08PartSpec {
 			}
 		})
 	}
-	return c08PartSpec{chunks: chunks, bound: fmt.Sprintf("%d chunks: long header values 4 types x 2 versions x CID lengths {0,1,8,20}^2 x token lengths {0,1,63,64} x 4 packet number lengths x boundary packet numbers x payload {0,1,63,64,16383-pnlen}; raw long headers 21 first bytes x 6 versions x CID length bytes {0,1,20,21,255}^2 x Length from the boundary set, token length from {0,63,64,16384,2^30,2^62-1} (thorough: boundary set) x {minimal, 8-byte} varints x tails {0,68} (thorough: {0,4,68}); short headers CID {0,1,8,20} x 4 pn lengths x boundary pns x key phase, all 256 first bytes; VN packets CID {0,1,20,21,255}^2 x 5 version lists; prefixes+substitutions of all value encodings", len(chunks))}
+	return c08PartSpec{chunks: chunks, bound: fmt.Sprintf("%d chunks: long header values 4 types x 2 versions x CID lengths {0,1,8,20}^2 x token lengths {0,1,63,64} x 4 packet number lengths x boundary packet numbers x payload {0,1,63,64,16383-pnlen}, Initial also token length 257 x 4 packet number lengths (one packet number, payload 1); raw long headers 21 first bytes x 6 versions x CID length bytes {0,1,20,21,255}^2 x Length from the boundary set, token length from {0,63,64,16384,2^30,2^62-1} (thorough: boundary set) x {minimal, 8-byte} varints x tails {0,68} (thorough: {0,4,68}); short headers CID {0,1,8,20} x 4 pn lengths x boundary pns x key phase, all 256 first bytes; VN packets CID {0,1,20,21,255}^2 x 5 version lists; prefixes+substitutions of all value encodings", len(chunks))}
 }
 
 // ---- transport parameter parts ----------------------------------------------------------------------
@@ -433,7 +434,7 @@ func c08TPValuesPart(thorough bool) c08PartSpec {
 		n   int
 		set func(p *TransportParameters, i int) (bool, string)
 	}
-	acl := []uint64{2, 3, 63, 64, 16383, 16384, 1 << 30, 1<<62 - 1}
+	acl := c08ACLValues
 	dgs := []int64{-1, 0, 1, 63, 64, 16383, 16384, 1<<62 - 1}
 	bc := func(get func(p *TransportParameters) *protocol.ByteCount) tf {
 		return tf{len(c08Bnd), func(p *TransportParameters, i int) (bool, string) {
@@ -459,7 +460,7 @@ func c08TPValuesPart(thorough bool) c08PartSpec {
 		sn(func(p *TransportParameters) *protocol.StreamNum { return &p.MaxUniStreamNum }),
 		{len(acl), func(p *TransportParameters, i int) (bool, string) {
 			p.ActiveConnectionIDLimit = acl[i]
-			return true, ""
+			return acl[i] >= 2, ""
 		}},
 		{len(dgs), func(p *TransportParameters, i int) (bool, string) {
 			p.MaxDatagramFrameSize = protocol.ByteCount(dgs[i])
@@ -492,7 +493,7 @@ func c08TPValuesPart(thorough bool) c08PartSpec {
 			}
 		})
 	}
-	return c08PartSpec{chunks: chunks, bound: fmt.Sprintf("%d chunks: 20 fields (9 for tickets), every alternative alone and every pair of alternatives, 2 perspectives; mutations of single-alternative encodings (thorough: of all)", len(chunks))}
+	return c08PartSpec{chunks: chunks, bound: fmt.Sprintf("%d chunks: 20 fields (9 for tickets), every alternative alone and every pair of alternatives, 2 perspectives; fields with a range rule (max_udp_payload_size, max_ack_delay, active_connection_id_limit) also take v + 2^8, v + 2^16, v + 2^32 for the values v next to the rule's edge; mutations of single-alternative encodings (thorough: of all)", len(chunks))}
 }
 
 func c08TPTablePart(thorough bool) c08PartSpec {
